@@ -120,7 +120,10 @@ def run(ctx: Context, col) -> None:
         rows = ("app", "sum", (Pacc, ("kw", "axis", K(-1))))
         dev = ("app", "max", (("app", "abs", (T_sub(rows, K(1)),)),))
         want_c = ("app", "cmpLt", (TOL, dev))
-        hit = [g for g in guards if g[0] == want_c]
+        # max|x| > tol  <=>  any(|x| > tol)
+        absdev = ("app", "abs", (T_sub(rows, K(1)),))
+        alt_c = I.reduce("any", I.compare("Gt", absdev, TOL))
+        hit = [g for g in guards if g[0] in (want_c, alt_c)]
         if hit:
             ok3, why3 = True, "raises ValueError iff max|row sum - 1| > tolerance"
         else:
